@@ -129,6 +129,9 @@ func (e *Engine) Verify(key string) (res *FuncResult) {
 			continue
 		}
 		for i, en := range fc.Ensures {
+			if en.Free {
+				continue
+			}
 			sc := fr.baseScope(r.st)
 			fr.bindResults(sc, r.vals)
 			t, err := sc.compileBool(en.Expr)
